@@ -219,7 +219,19 @@ fn carried_messages<B: SimField, H: ElementHasher<BaseField = B>>(case: &Case<B>
             out.push(("auxiliary trace commitment", troots[1].as_bytes().to_vec()));
         }
         out.push(("constraint commitment", croot.as_bytes().to_vec()));
-        out.push(("hash of OOD trace frame", ood_trace.hash::<H>().as_bytes().to_vec()));
+        // recomputed from the bytes the proof carries (not with TraceOodFrame::hash): the
+        // interleaved main / auxiliary states followed by the Lagrange kernel frame
+        let _ = ood_trace;
+        let ob = proof.ood_frame.to_bytes();
+        let l1 = u16::from_le_bytes([ob[0], ob[1]]) as usize;
+        let l2 = u16::from_le_bytes([ob[2 + l1], ob[3 + l1]]) as usize;
+        let mut carried: Vec<E> = vec![];
+        for range in [(3, l1.saturating_sub(1)), (5 + l1, l2.saturating_sub(1))] {
+            for c in ob[range.0..range.0 + range.1].chunks(E::ELEMENT_BYTES) {
+                carried.push(E::read_from_bytes(c).map_err(|e| format!("OOD trace state does not parse: {e}"))?);
+            }
+        }
+        out.push(("hash of OOD trace frame", H::hash_elements(&carried).as_bytes().to_vec()));
         out.push(("hash of OOD constraint evaluations", H::hash_elements(&ood_evals).as_bytes().to_vec()));
         for (i, r) in froots.iter().enumerate() {
             out.push((if i + 1 == froots.len() { "FRI remainder commitment" } else { "FRI layer commitment" }, r.as_bytes().to_vec()));
@@ -369,7 +381,7 @@ fn run<B: SimField, H: ElementHasher<BaseField = B> + Send + Sync + 'static>(ch:
         ctx.probe("flip_skipped_for_constant_trace");
         return;
     }
-    let targets = ["main", "aux", "constraint", "ood-trace", "ood-evals", "fri", "nonce"];
+    let targets = ["main", "aux", "constraint", "ood-trace", "ood-evals", "fri", "nonce", "ood-lagrange"];
     let t = targets[ch.index("flip.target", targets.len())];
     let mut p2 = proof.clone();
     let cb = proof.commitments.to_bytes(); // u16 length + digests
@@ -395,13 +407,19 @@ fn run<B: SimField, H: ElementHasher<BaseField = B> + Send + Sync + 'static>(ch:
             // commitments k >= segs+1 are FRI ones: two OOD reseeds come in between
             Some(if k <= segs { k } else { k + 2 })
         },
-        "ood-trace" | "ood-evals" => {
+        "ood-trace" | "ood-evals" | "ood-lagrange" => {
             let ob = proof.ood_frame.to_bytes();
             let l1 = u16::from_le_bytes([ob[0], ob[1]]) as usize;
             let l2 = u16::from_le_bytes([ob[2 + l1], ob[3 + l1]]) as usize;
             let l3 = u16::from_le_bytes([ob[4 + l1 + l2], ob[5 + l1 + l2]]) as usize;
             let mut b = ob.clone();
-            let (off, len) = if t == "ood-trace" { (3, l1 - 1) } else { (6 + l1 + l2, l3) };
+            let (off, len) = match t {
+                "ood-trace" => (3, l1 - 1),
+                // the Lagrange kernel frame when there is one, the main / auxiliary states otherwise
+                "ood-lagrange" if l2 > 1 => (5 + l1, l2 - 1),
+                "ood-lagrange" => (3, l1 - 1),
+                _ => (6 + l1 + l2, l3),
+            };
             let byte = ch.index("flip.byte", len);
             // low bit of a byte: keeps field elements canonical with overwhelming probability
             b[off + byte] ^= 1;
@@ -421,6 +439,7 @@ fn run<B: SimField, H: ElementHasher<BaseField = B> + Send + Sync + 'static>(ch:
         "aux" => "flip_aux_or_constraint_commitment",
         "constraint" => "flip_constraint_commitment",
         "ood-trace" => "flip_ood_trace_frame",
+        "ood-lagrange" => "flip_ood_lagrange_kernel_frame",
         "ood-evals" => "flip_ood_constraint_evaluations",
         "fri" => "flip_fri_commitment",
         _ => "flip_pow_nonce",
@@ -497,13 +516,198 @@ fn scenario(info: &RunInfo, ch: &mut Chooser, ctx: &mut Ctx) {
     dispatch(cfg, C04Job { ch, ctx, lim, cfg });
 }
 
+// CONTEXT ABSORPTION
+// ================================================================================================
+
+#[derive(Clone, Debug, PartialEq, Eq)]
+struct CtxParams {
+    main: usize,
+    aux: usize,
+    rands: usize,
+    log_len: u32,
+    meta: Vec<u8>,
+    queries: usize,
+    blowup: usize,
+    grinding: u32,
+    ext: u8,
+    folding: usize,
+    rmax: usize,
+    /// which base field's modulus the context names: 0 = the run's own, 1 / 2 = the two others
+    modulus_of: u8,
+}
+
+fn context_elements<B: SimField>(p: &CtxParams) -> Vec<B> {
+    use air::proof::Context;
+    use air::{ProofOptions, TraceInfo};
+    use math::fields::{f128, f62, f64};
+    let info = TraceInfo::new_multi_segment(p.main, p.aux, p.rands, 1usize << p.log_len, p.meta.clone());
+    let ext = [FieldExtension::None, FieldExtension::Quadratic, FieldExtension::Cubic][p.ext as usize];
+    let options = ProofOptions::new(p.queries, p.blowup, p.grinding, ext, p.folding, p.rmax);
+    let own_bits = B::MODULUS_BITS;
+    // the three moduli, the run's own first
+    // (a 16-byte modulus cannot be turned into elements of an 8-byte field at all: verify()
+    // compares the modulus before it does that, so that combination is not part of the claim)
+    let _ = core::marker::PhantomData::<f128::BaseElement>;
+    let c = match (p.modulus_of, own_bits) {
+        (0, _) => Context::new::<B>(info, options),
+        (_, 62) => Context::new::<f64::BaseElement>(info, options),
+        (_, 64) => Context::new::<f62::BaseElement>(info, options),
+        (1, _) => Context::new::<f62::BaseElement>(info, options),
+        _ => Context::new::<f64::BaseElement>(info, options),
+    };
+    ToElements::<B>::to_elements(&c)
+}
+
+/// "the coin has absorbed the proof context": two contexts that differ in one parameter must
+/// seed the coin differently. One run = one valid parameter tuple and one single-parameter
+/// variant of it; the seed elements (and the first challenge drawn from them) must differ.
+fn context_absorption(_info: &RunInfo, ch: &mut Chooser, ctx: &mut Ctx) {
+    let cfg = gen_cfg(ch, true);
+    struct J<'a> {
+        ch: &'a mut Chooser,
+        ctx: &'a mut Ctx,
+        cfg: Cfg,
+    }
+    impl<'a> Job for J<'a> {
+        type Out = ();
+        fn run<B: SimField, H: ElementHasher<BaseField = B> + Send + Sync + 'static>(self) {
+            let (ch, ctx, cfg) = (self.ch, self.ctx, self.cfg);
+            let aux = if ch.chance("cx.aux?", 1, 2) { 1 + ch.index("cx.auxw", 100) } else { 0 };
+            let meta_len = ch.biased("cx.metalen", 0, 40, &[0, 1, 7, 8, 15, 16]) as usize;
+            let salt = ch.u64("cx.metasalt");
+            let mut r = simcore::rng::Xoshiro::from_u64(salt);
+            let base = CtxParams {
+                main: 1 + ch.index("cx.main", 150),
+                aux,
+                rands: if aux > 0 { ch.index("cx.rands", 256) } else { 0 },
+                log_len: 3 + ch.index("cx.loglen", 22) as u32,
+                meta: (0..meta_len).map(|_| r.next() as u8).collect(),
+                queries: 1 + ch.index("cx.q", 255),
+                blowup: 2 << ch.index("cx.blowup", 6),
+                grinding: ch.index("cx.grind", 33) as u32,
+                ext: ch.index("cx.ext", 3) as u8,
+                folding: 2 << ch.index("cx.fold", 4),
+                rmax: (1usize << ch.index("cx.rmax", 9)) - 1,
+                modulus_of: 0,
+            };
+            let mut v = base.clone();
+            let field = ch.index("cx.variant", 18);
+            let name = match field {
+                0 => {
+                    v.main = if v.main < 150 { v.main + 1 } else { v.main - 1 };
+                    "main_width"
+                },
+                1 => {
+                    v.aux = if v.aux == 0 { 1 } else { v.aux + 1 };
+                    "aux_width"
+                },
+                2 if v.aux > 0 => {
+                    v.rands = (v.rands + 1) % 256;
+                    "num_aux_rands"
+                },
+                3 => {
+                    v.log_len = if v.log_len < 24 { v.log_len + 1 } else { v.log_len - 1 };
+                    "trace_length"
+                },
+                4 => {
+                    v.queries = v.queries % 255 + 1;
+                    "num_queries"
+                },
+                5 => {
+                    v.blowup = if v.blowup < 128 { v.blowup * 2 } else { 2 };
+                    "blowup_factor"
+                },
+                6 => {
+                    v.grinding = (v.grinding + 1) % 33;
+                    "grinding_factor"
+                },
+                7 => {
+                    v.ext = (v.ext + 1 + ch.index("cx.ext2", 2) as u8) % 3;
+                    "field_extension"
+                },
+                8 => {
+                    v.folding = if v.folding < 16 { v.folding * 2 } else { 2 };
+                    "fri_folding_factor"
+                },
+                9 => {
+                    v.rmax = if v.rmax < 255 { v.rmax * 2 + 1 } else { 0 };
+                    "fri_remainder_max_degree"
+                },
+                10 => {
+                    v.modulus_of = 1 + ch.index("cx.mod", 2) as u8;
+                    "field_modulus"
+                },
+                11 if !v.meta.is_empty() => {
+                    let k = ch.index("cx.metabit", v.meta.len() * 8);
+                    v.meta[k / 8] ^= 1 << (k % 8);
+                    "trace_meta_bit"
+                },
+                12 if v.aux > 0 && v.aux != v.main => {
+                    core::mem::swap(&mut v.main, &mut v.aux);
+                    "main_and_aux_width_swapped"
+                },
+                13 if v.aux > 0 && v.rands != v.aux && v.rands > 0 && v.main + v.rands <= 255 => {
+                    core::mem::swap(&mut v.rands, &mut v.aux);
+                    "aux_width_and_rands_swapped"
+                },
+                14 => {
+                    v.meta.push(1 + (ch.index("cx.metabyte", 255) as u8));
+                    "trace_meta_byte_appended"
+                },
+                16 => {
+                    v.meta.push(0);
+                    "trace_meta_zero_byte_appended"
+                },
+                17 if v.meta.last() == Some(&0) => {
+                    v.meta.pop();
+                    "trace_meta_zero_byte_removed"
+                },
+                15 if v.queries != v.blowup && v.queries.is_power_of_two() && (2..=128).contains(&v.queries) && v.blowup <= 255 => {
+                    core::mem::swap(&mut v.queries, &mut v.blowup);
+                    "queries_and_blowup_swapped"
+                },
+                _ => {
+                    v.grinding = (v.grinding + 7) % 33;
+                    "grinding_factor"
+                },
+            };
+            ctx.fault("context_parameter_changed");
+            let (a, b) = match simcore::guard(|| (context_elements::<B>(&base), context_elements::<B>(&v))) {
+                Ok(x) => x,
+                Err(p) => {
+                    ctx.violation(format!("HARNESS/context-constructor-panic {}", p.signature()), format!("{}:{} {} for {:?} / {:?}", p.file, p.line, p.msg, base, v));
+                    return;
+                },
+            };
+            ctx.event_with("context", simcore::rng::fnv1a(format!("{:?}{:?}{name}", cfg.0, base).as_bytes()), || format!("{:?}: {:?} vs variant '{name}' {:?}: {} / {} seed elements", cfg.0, base, v, a.len(), b.len()));
+            if a == b {
+                ctx.violation(
+                    format!("C04/context-parameter-not-absorbed {name}"),
+                    format!("two proof contexts that differ in '{name}' give the same seed elements, so no challenge depends on it: {:?} vs {:?} (field {:?})", base, v, cfg.0),
+                );
+                return;
+            }
+            // and the coins seeded with them (followed by the same public inputs) disagree
+            use crypto::{DefaultRandomCoin, RandomCoin};
+            let d = |e: &[B]| DefaultRandomCoin::<H>::new(e).draw::<B>().ok();
+            if d(&a) == d(&b) && d(&a).is_some() {
+                ctx.violation(format!("C04/context-parameter-not-absorbed-by-coin {name}"), format!("{:?} vs {:?}", base, v));
+            }
+        }
+    }
+    dispatch(cfg, J { ch, ctx, cfg });
+}
+
 pub fn spec() -> CheckSpec {
-    let arms: Vec<Box<dyn Arm>> = vec![Box::new(FnArm { name: "transcript", quick: 3000, thorough: 60_000, f: scenario })];
+    let arms: Vec<Box<dyn Arm>> = vec![
+        Box::new(FnArm { name: "transcript", quick: 3000, thorough: 60_000, f: scenario }),
+        Box::new(FnArm { name: "context-absorption", quick: 40_000, thorough: 1_000_000, f: context_absorption }),
+    ];
     CheckSpec {
         id: "C04",
         level: "exploration",
         build: "serial",
-        rule: "one run = one generated case (as C01) proved and verified with a recording coin substituted on both sides; the two recorded coin histories (new / reseed / draw / proof-of-work / draw_integers with arguments and results) are (1) matched against an executable reference model of the protocol order, (2) compared with each other, (3) compared with the messages parsed out of the proof, and (4) a bit is flipped in one absorbed message of the proof (commitment, OOD frame, nonce; position chosen by the simulator) and the verifier re-run: every later challenge must change, no earlier one may. Every run is non-trivial; distinct = distinct event-log digests.".into(),
+        rule: "one run = one generated case (as C01) proved and verified with a recording coin substituted on both sides; the two recorded coin histories (new / reseed / draw / proof-of-work / draw_integers with arguments and results) are (1) matched against an executable reference model of the protocol order, (2) compared with each other, (3) compared with the messages parsed out of the proof, and (4) a bit is flipped in one absorbed message of the proof (commitment, OOD frame, nonce; position chosen by the simulator) and the verifier re-run: every later challenge must change, no earlier one may. Arm context-absorption: one valid (trace info, proof options, field modulus) tuple and a variant of it that differs in one parameter (widths, random-element count, trace length, metadata bit / appended byte, queries, blowup, grinding, extension, folding, remainder degree, modulus, two swapped parameters): the seed elements the context contributes, and the first challenge of a coin seeded with them, must differ. Every run is non-trivial; distinct = distinct event-log digests.".into(),
         interleaving_measure: "distinct (case, flipped message, flipped bit) histories; the recorded coin histories themselves are the object checked".into(),
         real: vec!["winter-prover channel + pipeline, winter-verifier, winter-fri prover / verifier (coin use), crypto::DefaultRandomCoin (wrapped, not replaced)"],
         stub: vec!["RecordingCoin: delegating wrapper that only logs"],
